@@ -13,13 +13,13 @@ ASSUMPTIONS = ['the document store is rebuilt in the model the way ModelBuilder 
 
 
 def run(ctx):
-    tokedit.run(ctx, ctx.scale(120, 3000), ctx.scale(12, 20), [2, 3, 4, 5, 10] if not ctx.thorough else list(range(2, 13)), 'C02')
+    tokedit.run(ctx, ctx.scale(120, 3000), ctx.scale(12, 20), [2, 3, 4, 5, 10] if not ctx.thorough else list(range(2, 13)), 'C02', judge=('C02',))
 
 
 def search(ctx, hints):
-    tokedit.run(ctx, ctx.scale(1200, 4000), 20, [2, 3, 4, 5, 10], 'C02', with_model=False)
+    tokedit.run(ctx, ctx.scale(1200, 4000), 20, [2, 3, 4, 5, 10], 'C02', with_model=False, judge=('C02',))
 
 
 def replay(ctx, data):
     rep = data.get('replay') or data.get('first_diverging_replay')
-    return not [b for b in tokedit.replay(rep) if b[0].startswith('C02')]
+    return not [b for b in tokedit.replay(rep) if b[0].startswith('C02', judge=('C02',))]
